@@ -15,7 +15,7 @@ func init() {
 	generatedPrograms = func(r *rng.R, tier string) []Prog {
 		nIdl, nSch := 3, 3
 		if tier == "thorough" {
-			nIdl, nSch = 30, 30
+			nIdl, nSch = 18, 18
 		}
 		var out []Prog
 		for i := 0; i < nIdl; i++ {
